@@ -18,7 +18,9 @@
 (***************************************************************************)
 EXTENDS Score40, Sequences, FiniteSets, SequencesExt, TLC, Json
 
-CONSTANT Mode      \* "views" | "classes"
+CONSTANT Mode,     \* "views" | "classes"
+         Stripe,   \* classes mode: only every Stripe-th outer tuple is evaluated ...
+         Phase     \* ... namely those whose rank is Phase modulo Stripe
 
 VARIABLE view      \* views: <<i1,i2,i36,i4,i5>>; classes: <<av,ac,at,pr,ui,ee>> value indices
 
@@ -125,7 +127,8 @@ OuterM == <<"AV", "AC", "AT", "PR", "UI", "E">>
 AllViews ==
   IF Mode = "views"
   THEN (1..Len(P1)) \X (1..Len(P2)) \X (1..Len(P36)) \X (1..Len(P4)) \X (1..3)
-  ELSE (1..4) \X (1..2) \X (1..2) \X (1..3) \X (1..3) \X (1..3)
+  ELSE {v \in (1..4) \X (1..2) \X (1..2) \X (1..3) \X (1..3) \X (1..3) :
+          (v[1] + 4 * v[2] + 8 * v[3] + 16 * v[4] + 48 * v[5] + 144 * v[6]) % Stripe = Phase % Stripe}
 Init == view = <<"start">>
 Next == \/ /\ Len(view) = 1
            /\ view' \in {<<"grp", g, h>> : g \in 1..4, h \in 1..3}
